@@ -117,8 +117,8 @@ def collected_form(chk, prog, fn):
     chk.trust("Iterator::collect::<Result<Vec<_>, E>>() yields the elements' Ok payloads in order, or the first Err (core docs)")
     n = fld(("vfld", hdr, "Ok", "0"), "number_of_elevation_cuts")
     sq = ("seq", adt("core::ops::range::Range", "Range", (("start", C(0, "u16")), ("end", n))), (), blk)
-    want = sym.res_match(hdr, lambda h: sym.res_match(sq, lambda v: ok(adt(VM, "Message", (("header", h), ("elevations", v)))), lambda e: err(("conv", e))),
-                         lambda e: err(("conv", e)))
+    want = sym.res_match(hdr, lambda h: sym.res_match(sq, lambda v: ok(adt(VM, "Message", (("header", h), ("elevations", v)))), lambda e: err(e)),
+                         lambda e: err(e))      # `?` between equal error types is the identity (sym._m_res_from_residual)
     chk.ob("VN", FN, True, "0 loop(s) in the decoder: the cuts are read by an iterator chain", fn.where(), key="one-loop")
     starts = [x for x in sym._leaves(got, []) if x[0] == "adt" and x[2] == "Ok"]
     seqs = set()
